@@ -50,6 +50,26 @@ class Summaries:
                 if rx.search(name):
                     f = g
                     break
+        if f is None and name.endswith('::ne'):
+            # PartialEq::ne is the negation of eq
+            eqn = name[:-2] + 'eq'
+            g = self.table.get(eqn)
+            if g is None:
+                for rx, g2 in self.patterns:
+                    if rx.search(eqn):
+                        g = g2
+                        break
+            if g is not None:
+                self.used[name] = self.used.get(name, 0) + 1
+                r = g(ctx)
+                rs = [(ctx.st, r)] if isinstance(r, V) else r
+                out = []
+                for (s, b) in rs:
+                    if isinstance(b, BoolV):
+                        out.append((s, BoolV(not b.val) if b.val is not None else BoolV(None, ('not', b))))
+                    else:
+                        out.append((s, BoolV(None, ('fact', ('ne?', next(_c))))))
+                return out
         if f is None:
             if self.total_std(name):
                 return self.total(ctx)
@@ -410,6 +430,8 @@ class Summaries:
                 for op in it.ops:
                     if op[0] == 'step_by':
                         pass   # stride forgotten: lo <= v < hi still holds
+                # remember which iterator this element came from (rules about "every element of .. is ..")
+                s_some.vn[('itersym', v.sym)] = it
                 if ok and not s_some.zone.bottom:
                     out.append((s_some, v))
                 out.append((s_none, None))
@@ -702,6 +724,15 @@ class Summaries:
             """run the adaptor closures once on an arbitrary element in a scratch state (their own
             panic sites and events are recorded; the state is discarded)"""
             if isinstance(it, IterV) and any(o[0] in ('map', 'filter') for o in it.ops):
+                mut = False
+                for o in it.ops:
+                    if o[0] in ('map', 'filter') and isinstance(o[1], ClosureV):
+                        if any(isinstance(v, RefV) and v.mut for v in o[1].caps.fields.values()):
+                            mut = True
+                if mut and ctx.fr is not None:
+                    # an adaptor closure that can change captured state: treat the consumption as a loop
+                    closure_loop(ctx, it, None)
+                    return
                 try:
                     iter_elem(ctx, st.fork(), it)
                 except Infeasible:
@@ -901,8 +932,11 @@ class Summaries:
             if w and eng.cfg.get('check_inv', True) and inv.S_ROOT in st.store:
                 for (name, ok, facts) in inv.check_inv(eng, st, only_written=w):
                     eng.obligation(st, fr, ctx.bi, 'loopinv', '%s@entry' % name, span, ok, facts)
-            if isinstance(f, ClosureV):
-                for k, v in f.caps.fields.items():
+            clos = [f] if isinstance(f, ClosureV) else []
+            if isinstance(it, IterV):
+                clos += [o[1] for o in it.ops if o[0] in ('map', 'filter') and isinstance(o[1], ClosureV)]
+            for cl in clos:
+                for k, v in cl.caps.fields.items():
                     if isinstance(v, RefV) and v.mut and v.path[0] != inv.S_ROOT:
                         try:
                             cur = eng.read(st, v.path)
@@ -928,10 +962,13 @@ class Summaries:
             for (s, x) in elems:
                 if x is None:
                     continue
-                try:
-                    res = eng.call_value(s, f, [x] if elem_args is None else elem_args(s, x), ctx.depth, ctx.fr, ctx.bi)
-                except Infeasible:
-                    continue
+                if f is None:
+                    res = [(s, UNIT)]      # only the adaptor closures ran (inside iter_elem)
+                else:
+                    try:
+                        res = eng.call_value(s, f, [x] if elem_args is None else elem_args(s, x), ctx.depth, ctx.fr, ctx.bi)
+                    except Infeasible:
+                        continue
                 for (s2, _r) in res:
                     if w and eng.cfg.get('check_inv', True) and inv.S_ROOT in s2.store:
                         for (name, ok, facts) in inv.check_inv(eng, s2, only_written=w):
@@ -1183,11 +1220,29 @@ class Summaries:
                     for o in it.ops:
                         sk = sk[o[1].k:] if o[0] == 'skip' else sk[:o[1].k]
                     return StrV(sk, prov=('collect',))
+                ex = exact_items(ctx, st, it) if isinstance(it, IterV) else None
+                if ex is not None:
+                    out = []
+                    for (s, items) in ex:
+                        parts = []
+                        for x in items:
+                            x = sval(with_state(ctx, s), x)
+                            if isinstance(x, StrV) and x.known is not None:
+                                parts.append(x.known)
+                            else:
+                                parts = None
+                                break
+                        if parts is None:
+                            out = None
+                            break
+                        out.append((s, StrV(''.join(parts), prov=('collect',))))
+                    if out is not None:
+                        return out
                 if isinstance(it, IterV) and any(o[0] in ('map', 'filter') for o in it.ops):
                     s2 = st.fork()
                     iter_elem(ctx, s2, it)
                 return StrV(None, prov=('collect', it.key() if isinstance(it, IterV) else None,
-                                        tuple(o[0] for o in it.ops) if isinstance(it, IterV) else ()), oid=next(_c))
+                                        tuple(o[0] for o in it.ops) if isinstance(it, IterV) else (), it if isinstance(it, IterV) else None), oid=next(_c))
             head, _a = split_generic(rty)
             kind = {'std::vec::Vec': 'vec', 'std::collections::HashSet': 'set', 'std::collections::HashMap': 'map'}.get(head)
             if kind is None:
@@ -1244,14 +1299,26 @@ class Summaries:
                         fl = [o for o in it.ops if o[0] == 'filter']
                         if kind == 'set' and len(fl) == 1 and all(o[0] in ('filter', 'cloned') for o in it.ops):
                             # x in collect(filter(p, src))  <=>  x in src and p(x)
-                            s2.vn[('filtered', nc.cid)] = (c.key(), freeze_closure(s2, fl[0][1]))
+                            s2.vn[('filtered', nc.cid)] = (c.key(), freeze_closure(s2, fl[0][1]), 2, nc.ver)
                         out.append((s2, nc))
                     if not out:
                         out.append((st, CollV(kind, rty, next(_c), length=NumV(None, 0, 'usize') if kind == 'vec' else None, known=())))
                     return out[:1] if len(out) == 1 else out
             if isinstance(it, IterV) and it.kind == 'range':
-                return CollV(kind, rty, next(_c), length=eng.fresh_num(st, 'usize', 0, 2**40) if kind == 'vec' else None,
-                             prov=('collect-range', it.args[0], it.args[1]))
+                lo, hi, incl = it.args
+                elementwise = all(o[0] in ('map', 'cloned', 'rev') for o in it.ops)
+                log(ctx, 'iter.collect', ('range', lo, hi, incl), tuple(o[0] for o in it.ops), tuple(o[1].func for o in it.ops if o[0] == 'map' and isinstance(o[1], ClosureV)))
+                analyse_adaptors(ctx, st, it)
+                ln = None
+                if kind == 'vec':
+                    ln = eng.fresh_num(st, 'usize', 0, 2**40)
+                    if elementwise and isinstance(lo, NumV) and isinstance(hi, NumV) and not incl:
+                        if lo.sym is None and lo.k == 0:
+                            ln = NumV(hi.sym, hi.k, 'usize')
+                        elif eng.prove_le(st, lo, hi) is True:
+                            d = eng.num_sub(st, hi, lo, hi.ty)
+                            ln = NumV(d.sym, d.k, 'usize')
+                return CollV(kind, rty, next(_c), length=ln, prov=('collect-range', lo, hi))
             return CollV(kind, rty, next(_c), length=eng.fresh_num(st, 'usize', 0, 2**40) if kind == 'vec' else None,
                          prov=('collect', None))
 
@@ -1741,6 +1808,13 @@ class Summaries:
                 return BoolV(any(e.k == x.k for e in c.known))
             return bool_fact(ctx, ('slicecontains', c.key(), x.key() if isinstance(x, V) else None))
 
+        @regx(r'^<char as std::convert::From<u8>>::from$|^std::char::convert::<impl std::convert::From<u8> for char>::from$|^core::char::convert::<impl std::convert::From<u8> for char>::from$')
+        def _(ctx):
+            v = deref(ctx, ctx.args[0])
+            if isinstance(v, NumV):
+                return eng.int_to_char(ctx.st, v)
+            return CharV(None, next(_c))
+
         @reg('std::char::methods::<impl char>::is_ascii_digit')
         def _(ctx):
             ch = deref(ctx, ctx.args[0])
@@ -2194,6 +2268,36 @@ class Summaries:
             # the predicate is analysed on an arbitrary element (scratch state); what it keeps is
             # recorded for the pruning rules: the kept elements satisfy the predicate
             desc = None
+            if c.kind in ('set', 'vec') and c.known is not None and len(c.known) <= 64:
+                # exactly known contents: the predicate decides every element
+                states = [(st, [])]
+                for e in c.known:
+                    nxt = []
+                    for (s, acc) in states:
+                        for (s3, r) in eng.call_value(s, f, [mkref(s, e)], ctx.depth, ctx.fr, ctx.bi):
+                            t = eng.eval_bool(s3, r) if isinstance(r, BoolV) else None
+                            if t is True:
+                                nxt.append((s3, acc + [e]))
+                            elif t is False:
+                                nxt.append((s3, acc))
+                            elif isinstance(r, BoolV):
+                                s4 = s3.fork()
+                                if eng.assume_bool(s3, r, True):
+                                    nxt.append((s3, acc + [e]))
+                                if eng.assume_bool(s4, r, False):
+                                    nxt.append((s4, acc))
+                    states = nxt
+                    if len(states) > 64:
+                        break
+                else:
+                    out = []
+                    for (s, acc) in states:
+                        c2 = with_state(ctx, s)
+                        p2, cc = coll_at(c2, ctx.args[0])
+                        log(c2, 'coll.retain', spath(p2), ('exact', tuple(acc)))
+                        bump(c2, p2, cc, known=tuple(acc), length=NumV(None, len(acc), 'usize') if cc.kind == 'vec' else None)
+                        out.append((s, UNIT))
+                    return out
             s2 = st.fork()
             if c.kind == 'map':
                 head, args = split_generic(c.ty)
@@ -2206,7 +2310,10 @@ class Summaries:
                 res = eng.call_value(s2, f, [mkref(s2, e)], ctx.depth, ctx.fr, ctx.bi)
                 desc = retain_bound(res, e)
             log(ctx, 'coll.retain', spath(path), desc)
-            bump(ctx, path, c, known=None, length=None)
+            nc = bump(ctx, path, c, known=None, length=None)
+            if c.kind == 'set' and isinstance(f, ClosureV):
+                # x in retained  <=>  x in old and pred(&x)
+                st.vn[('filtered', nc.cid)] = (c.key(), freeze_closure(st, f), 1, nc.ver)
             return UNIT
 
         def retain_bound(res, k):
@@ -2257,10 +2364,14 @@ class Summaries:
             if c.known is not None and _is_const(v) and all(_is_const(x) for x in c.known):
                 return BoolV(any(x.key() == v.key() for x in c.known))
             fl = ctx.st.vn.get(('filtered', c.cid))
+            if fl is not None and fl[3] != c.ver:
+                fl = None      # the collection changed since it was filtered
             if fl is not None and _is_const(v):
-                srckey, pred = fl
+                srckey, pred, nref, _ver = fl
                 outs = []
-                probe = mkref(ctx.st, mkref(ctx.st, v))
+                probe = mkref(ctx.st, v)
+                if nref == 2:
+                    probe = mkref(ctx.st, probe)
                 for (s2, r2) in eng.call_value(ctx.st.fork(), pred, [probe], ctx.depth, ctx.fr, ctx.bi):
                     outs.append(eng.eval_bool(s2, r2) if isinstance(r2, BoolV) else None)
                 if outs and all(o is False for o in outs):
@@ -2283,11 +2394,12 @@ class Summaries:
                     desc = ('iter', src)
             log(ctx, 'set.extend', spath(path), desc)
             known = None
-            if c.known is not None and isinstance(src, IterV) and src.kind == 'coll' and not src.ops:
-                sc = eng.read(ctx.st, src.args[0]) if src.args[0] is not None else None
-                if isinstance(sc, CollV) and sc.known is not None:
-                    items = [deref(ctx, x) for x in sc.known]
-                    if all(_is_const(x) for x in items) and all(_is_const(x) for x in c.known):
+            it = to_iter(ctx, src)
+            if c.known is not None and isinstance(it, IterV) and all(_is_const(x) for x in c.known):
+                ex = exact_items(ctx, ctx.st, it)
+                if ex is not None and len(ex) == 1 and ex[0][0] is ctx.st:
+                    items = [deref(ctx, x) for x in ex[0][1]]
+                    if all(_is_const(x) for x in items):
                         kn = list(c.known)
                         for x in items:
                             if not any(y.key() == x.key() for y in kn):
